@@ -421,6 +421,9 @@ def run(rep, tier):
         rep.call(_lw.cursor_advance, rep, prog, "C01.cursor-advance", {"x86": 16, "x86-rayon": 16, "wasm": 4}.get(cfg, 0))
         from ..engines import validators
         rep.call(validators.crop_passthrough, rep, prog, "C01.crop-passthrough")
+        # every row of a pass is convolved: the rows after the last full group of four too
+        from ..engines import row_coverage
+        rep.call(row_coverage.group_tail, rep, prog, "C01.kernel-rows")
         if cfg.startswith("x86"):
             from ..engines import lanepair
             rep.call(lanepair.pairing, rep, prog, "C01.lane-pairing")
